@@ -19,9 +19,9 @@ Request (one line, single spaces):
 
 The client is joblib's: a call = (`configure` unless inside a `with` block) ; submit every task ; wait ;
 on an exception `abort_everything(ensure_ready = managed)`, else `terminate()` when not managed.
-Inside a call EVERY interleaving of manager iterations and worker runs is explored (`managerStep`,
-`step` — the definitions the theorems are about); a worker run = `take` + the task's send/kill events,
-done by the idle live worker with the lowest pid (workers are interchangeable).
+Inside a call EVERY interleaving of manager iterations, worker `take`s (by the idle live worker with the
+lowest pid: idle workers are interchangeable) and task completions of ANY busy worker (the task's send/kill
+events) is explored, with `managerStep` and `step` — the definitions the theorems are about.
 
 Reply: `outs <trace> | <trace> | …` — the set of possible traces, sorted; a trace has one token per call:
 `ok@<executor_id>`, `<ExceptionClass>@<executor_id>` or `hang` (nothing after a hang).
@@ -129,18 +129,27 @@ def killLowest (fn : Nat → Nat) (s : State) (k : Nat) : State :=
 def lowestIdle (s : State) : Option Nat :=
   (s.processes.find? (·.idle)).map (·.pid)
 
-/-- A worker run: the idle live worker with the lowest pid takes the head call item and does what the
-task's fault class says. `none` when no worker can take anything. -/
-def workerRun (victims : List (Nat × FaultCls)) (s : State) : Option State :=
+/-- `call_queue.get()`: the idle live worker with the lowest pid takes the head call item (idle workers are
+interchangeable). `none` when no worker can take anything. -/
+def workerTake (s : State) : Option State :=
   match lowestIdle s, s.call_queue with
-  | some p, item :: _ =>
-    let s1 := step fnTask s (.take p)
-    match victims.lookup item.wid with
-    | none => some (step fnTask s1 (.sendResult p))
-    | some .nobytes => some (step fnTask s1 (.kill p))
-    | some .midsend => some (step fnTask (step fnTask s1 (.beginSend p)) (.kill p))
-    | some .aftersend => some (step fnTask (step fnTask s1 (.sendResult p)) (.kill p))
+  | some p, _ :: _ => some (step fnTask s (.take p))
   | _, _ => none
+
+/-- The workers that hold a call item and have not begun to send. -/
+def busyWorkers (s : State) : List (Nat × CallItem) :=
+  s.processes.filterMap fun w =>
+    match w.current with
+    | some it => if w.alive && !w.sending then some (w.pid, it) else none
+    | none => none
+
+/-- Worker `p` is done with the task of call item `it`: what the task's fault class says. -/
+def workerFinish (victims : List (Nat × FaultCls)) (s : State) (p : Nat) (it : CallItem) : State :=
+  match victims.lookup it.wid with
+  | none => step fnTask s (.sendResult p)
+  | some .nobytes => step fnTask s (.kill p)
+  | some .midsend => step fnTask (step fnTask s (.beginSend p)) (.kill p)
+  | some .aftersend => step fnTask (step fnTask s (.sendResult p)) (.kill p)
 
 inductive CallEnd where
   | ok
@@ -164,16 +173,67 @@ def callStatus (s : State) (wids : List Nat) : Option CallEnd :=
   | some e => some (.exc e)
   | none => if sts.all isResult then some .ok else none
 
-/-- Depth-first exploration of every interleaving of manager iterations and worker runs until the call
-ends. Returns the set of (executor state at the end, how the call ended). -/
+/-! #### symmetry reduction: workers are interchangeable -/
+
+def isPidMsg : Msg → Bool
+  | .pid _ => true
+  | _ => false
+
+def workerKey (w : Worker) : Nat :=
+  (if w.alive then 0 else 1000000) + (match w.current with | none => 0 | some it => (it.wid + 1) * 4) +
+    (if w.sending then 2 else 0) + (if w.exiting then 1 else 0)
+
+def insertWorker (w : Worker) : List Worker → List Worker
+  | [] => [w]
+  | y :: ys => if workerKey w ≤ workerKey y then w :: y :: ys else y :: insertWorker w ys
+
+/-- Rename the pids so that the workers appear sorted by what they are doing (the pids themselves carry no
+information: `step` treats all workers alike). Left alone while a message names a pid. -/
+def canonState (s : State) : State :=
+  if s.partialMsg.isSome || s.result_pipe.any isPidMsg then s
+  else
+    let pids := s.processes.map (·.pid)
+    let ws := s.processes.foldr insertWorker []
+    { s with processes := (pids.zip ws).map fun (p, w) => { w with pid := p } }
+
+/-- Between two calls: an executor whose manager has returned is never used again (`get_reusable_executor`
+replaces it on the strength of its flags): only the flags are kept. -/
+def tombstone (s : State) : State :=
+  if s.mgr == .exited then
+    { State.init s.max_workers s.queue_size 0 with flags := s.flags, mgr := .exited }
+  else canonState s
+
+def canonPool (p : Pool) : Pool := { p with execs := p.execs.map tombstone }
+
+/-- The visited set of the exploration: buckets indexed by the state's hash. -/
+structure Visited where
+  buckets : Array (List State)
+
+def Visited.empty : Visited := ⟨Array.replicate 8192 []⟩
+
+def Visited.slot (v : Visited) (s : State) : Nat := (hash s).toNat % v.buckets.size
+
+def Visited.contains (v : Visited) (s : State) : Bool :=
+  match v.buckets[v.slot s]? with
+  | some l => l.contains s
+  | none => false
+
+def Visited.insert (v : Visited) (s : State) : Visited :=
+  let i := v.slot s
+  match v.buckets[i]? with
+  | some l => ⟨v.buckets.set! i (s :: l)⟩
+  | none => v
+
+/-- Depth-first exploration of every interleaving of manager iterations, worker takes and task completions
+until the call ends. Returns the set of (executor state at the end, how the call ended). -/
 def exploreCall (victims : List (Nat × FaultCls)) (wids : List Nat) :
-    Nat → List State → List State → List (State × CallEnd) → List (State × CallEnd)
+    Nat → List State → Visited → List (State × CallEnd) → List (State × CallEnd)
   | 0, _, _, acc => acc
   | _, [], _, acc => acc
   | fuel + 1, s :: stack, visited, acc =>
     if visited.contains s then exploreCall victims wids fuel stack visited acc
     else
-      let visited := s :: visited
+      let visited := visited.insert s
       match callStatus s wids with
       | some e =>
         let acc := if acc.contains (s, e) then acc else (s, e) :: acc
@@ -181,11 +241,12 @@ def exploreCall (victims : List (Nat × FaultCls)) (wids : List Nat) :
       | none =>
         let (sm, _) := managerStep s
         let succs := (if sm == s then [] else [sm]) ++
-          (match workerRun victims s with | some sw => if sw == s then [] else [sw] | none => [])
+          (match workerTake s with | some sw => if sw == s then [] else [sw] | none => []) ++
+          ((busyWorkers s).map (fun (p, it) => workerFinish victims s p it)).filter (fun sw => sw != s)
         if succs.isEmpty then
           let acc := if acc.contains (s, .hang) then acc else (s, .hang) :: acc
           exploreCall victims wids fuel stack visited acc
-        else exploreCall victims wids fuel (succs ++ stack) visited acc
+        else exploreCall victims wids fuel (succs.map canonState ++ stack) visited acc
 
 structure Sys where
   pool : Pool
@@ -260,57 +321,69 @@ def abortJoin (p : Pool) (b : Backend) (nJobs qs : Nat) (managed : Bool) : Optio
       | none => none
       | some p2 => if managed then configureJoin p2 nJobs qs else some (p2, ⟨none⟩)
 
-def runCalls (scn : Scn) : Nat → List CallSpec → Nat → Sys → List (List String)
-  | 0, _, _, sys => [sys.trace.reverse]
-  | _, [], _, sys => [sys.trace.reverse]
-  | fuel + 1, c :: rest, ci, sys =>
-    -- idle kill before the call, on the singleton's current executor
-    let p0 : Pool :=
-      match sys.pool.current with
-      | some x =>
-        match sys.pool.execs[x]? with
-        | some e => if c.preK > 0 then setExec sys.pool x (killLowest fnTask e c.preK) else sys.pool
-        | none => sys.pool
+/-- What one call leads to: the end of the trace (a hang) or the system before the next call. -/
+inductive Next where
+  | stop (trace : List String)
+  | cont (sys : Sys)
+deriving DecidableEq
+
+/-- One call of the scenario from `sys`: every branch (observation races, interleavings) → its `Next`. -/
+def oneCall (scn : Scn) (c : CallSpec) (ci : Nat) (sys : Sys) : List Next :=
+  let hang : Next := .stop ("hang" :: sys.trace).reverse
+  -- idle kill before the call, on the singleton's current executor
+  let p0 : Pool :=
+    match sys.pool.current with
+    | some x =>
+      match sys.pool.execs[x]? with
+      | some e => if c.preK > 0 then setExec sys.pool x (killLowest fnTask e c.preK) else sys.pool
       | none => sys.pool
-    -- has the manager of the current executor looked since? (forced when the harness let it)
-    let pools := observeBranches p0 p0.current (c.preK > 0 && c.preObs)
-    dedup <| pools.flatMap fun p1 =>
-      -- configure unless managed
-      let cfg : Option (Pool × Backend) :=
-        if scn.managed then some (p1, sys.backend) else configureJoin p1 scn.nJobs scn.queueSize
-      match cfg with
-      | none => [("hang" :: sys.trace).reverse]
-      | some (p2, b) =>
-        let idStr := match b.workers with | some i => toString i | none => "-"
-        (submitAll c b (1000 * ci) c.nTasks 0 p2 []).flatMap fun (p3, wids, err) =>
-          let finish (p : Pool) (e : CallEnd) : List (List String) :=
-            match e with
-            | .hang => [("hang" :: sys.trace).reverse]
-            | .ok =>
-              let b' := if scn.managed then b else backendTerminate b
-              runCalls scn fuel rest (ci + 1) ⟨p, b', s!"ok@{idStr}" :: sys.trace⟩
-            | .exc ex =>
-              match abortJoin p b scn.nJobs scn.queueSize scn.managed with
-              | none => [("hang" :: sys.trace).reverse]
-              | some (p', b') => runCalls scn fuel rest (ci + 1) ⟨p', b', s!"{excName ex}@{idStr}" :: sys.trace⟩
-          match err with
-          | some name =>
-            -- `submit` raised: `Parallel` aborts and re-raises
-            match abortJoin p3 b scn.nJobs scn.queueSize scn.managed with
-            | none => [("hang" :: sys.trace).reverse]
-            | some (p', b') => runCalls scn fuel rest (ci + 1) ⟨p', b', s!"{name}@{idStr}" :: sys.trace⟩
-          | none =>
-            match b.workers with
-            | none => [("AttributeError@-" :: sys.trace).reverse]
-            | some x =>
-              match p3.execs[x]? with
-              | none => [("AttributeError@-" :: sys.trace).reverse]
-              | some e0 =>
-                let victims := c.faults.filterMap fun (t, k) =>
-                  -- task `t` of this call is the `t`-th submitted wid
-                  (wids.reverse[t]?).map (fun w => (w, k))
-                let ends := exploreCall victims wids.reverse 200000 [e0] [] []
-                ends.flatMap fun (e1, ce) => finish (setExec p3 x e1) ce
+    | none => sys.pool
+  -- has the manager of the current executor looked since? (forced when the harness let it)
+  let pools := observeBranches p0 p0.current (c.preK > 0 && c.preObs)
+  pools.flatMap fun p1 =>
+    -- configure unless managed
+    let cfg : Option (Pool × Backend) :=
+      if scn.managed then some (p1, sys.backend) else configureJoin p1 scn.nJobs scn.queueSize
+    match cfg with
+    | none => [hang]
+    | some (p2, b) =>
+      let idStr := match b.workers with | some i => toString i | none => "-"
+      let failed (p : Pool) (name : String) : Next :=
+        -- `Parallel` aborts (`abort_everything(ensure_ready = managed)`) and re-raises
+        match abortJoin p b scn.nJobs scn.queueSize scn.managed with
+        | none => hang
+        | some (p', b') => .cont ⟨canonPool p', b', s!"{name}@{idStr}" :: sys.trace⟩
+      (submitAll c b (1000 * ci) c.nTasks 0 p2 []).flatMap fun (p3, wids, err) =>
+        match err with
+        | some name => [failed p3 name]
+        | none =>
+          match b.workers with
+          | none => [.stop ("AttributeError@-" :: sys.trace).reverse]
+          | some x =>
+            match p3.execs[x]? with
+            | none => [.stop ("AttributeError@-" :: sys.trace).reverse]
+            | some e0 =>
+              let victims := c.faults.filterMap fun (t, k) =>
+                -- task `t` of this call is the `t`-th submitted wid
+                (wids.reverse[t]?).map (fun w => (w, k))
+              let ends := exploreCall victims wids.reverse 4000000 [canonState e0] Visited.empty []
+              ends.map fun (e1, ce) =>
+                match ce with
+                | .hang => hang
+                | .ok =>
+                  let b' := if scn.managed then b else backendTerminate b
+                  .cont ⟨canonPool (setExec p3 x e1), b', s!"ok@{idStr}" :: sys.trace⟩
+                | .exc ex => failed (setExec p3 x e1) (excName ex)
+
+/-- The calls one after the other; identical systems reached through different schedules are merged. -/
+def runCalls (scn : Scn) : Nat → List CallSpec → Nat → List Sys → List (List String)
+  | 0, _, _, syss => syss.map (·.trace.reverse)
+  | _, [], _, syss => syss.map (·.trace.reverse)
+  | fuel + 1, c :: rest, ci, syss =>
+    let nexts := dedup (syss.flatMap (oneCall scn c ci))
+    let stops := nexts.filterMap fun n => match n with | .stop t => some t | .cont _ => none
+    let conts := nexts.filterMap fun n => match n with | .cont s => some s | .stop _ => none
+    stops ++ runCalls scn fuel rest (ci + 1) conts
 
 def insertSorted (x : String) : List String → List String
   | [] => [x]
@@ -327,7 +400,7 @@ def handle (line : String) : String :=
         let (p, b) := configure Pool.empty scn.nJobs scn.queueSize   -- `__enter__`
         ⟨p, b, []⟩
       else ⟨Pool.empty, ⟨none⟩, []⟩
-    let traces := dedup (runCalls scn (scn.calls.length + 1) scn.calls 0 sys0)
+    let traces := dedup (runCalls scn (scn.calls.length + 1) scn.calls 0 [sys0])
     "outs " ++ " | ".intercalate (sortStrings (traces.map joinSp))
 
 def main : IO Unit := lineLoop handle
